@@ -9,10 +9,13 @@ Variable simple : bool.     (* grammar.SIMPLE_STR *)
 
 Fixpoint item_str (i : item) : string :=
   match i with
-  | NameLeaf n => if String.eqb n "ENDMARKER" then "$" else n
+  | NameLeaf n => n
   | StringLeaf raw => raw
   | Group r => "(" ++ rhs_str r ++ ")"
-  | Opt j => let s := item_str j in if has_space s then "[" ++ s ++ "]" else s ++ "?"
+  | Opt j => let s := item_str j in
+             (* X? is only used when X is an atom: isinstance(node, (Leaf, Group)) *)
+             if has_space s || negb (match j with NameLeaf _ | StringLeaf _ | Group _ => true | _ => false end)
+             then "[" ++ s ++ "]" else s ++ "?"
   | Repeat0 _ j => let s := item_str j in if has_space s then "(" ++ s ++ ")*" else s ++ "*"
   | Repeat1 _ j => let s := item_str j in if has_space s then "(" ++ s ++ ")+" else s ++ "+"
   | Gather _ s e => item_str s ++ "." ++ item_str e ++ "+"
@@ -38,18 +41,22 @@ with alt_str (a : alt) : string :=
     end
   end
 with nitem_str (n : nitem) : string :=
-  match n with NItem name _ i =>
+  match n with NItem name ty i =>
     match name with
-    | Some x => if negb simple && negb (String.eqb x "") then x ++ "=" ++ item_str i else item_str i
+    | Some x => if negb simple && negb (String.eqb x "")
+                then match ty with
+                     | Some t => x ++ "[" ++ t ++ "]=" ++ item_str i
+                     | None => x ++ "=" ++ item_str i
+                     end
+                else item_str i
     | None => item_str i
     end
   end.
 
 Definition rule_str (r : rule) : string :=
-  let head := match rtype r with
-              | Some t => if simple then rname r else rname r ++ "[" ++ t ++ "]"
-              | None => rname r
-              end in
+  let head := if simple then rname r
+              else (match rtype r with Some t => rname r ++ "[" ++ t ++ "]" | None => rname r end)
+                   ++ (if rmemo r then " (memo)" else "") in
   let res := head ++ ": " ++ rhs_str (rrhs r) in
   if Nat.ltb (String.length res) 88 then res
   else join (String (ascii_of_nat 10) "")
